@@ -20,7 +20,7 @@ def traj (s0 : State) (sched : Nat → Op) : Nat → State
 
 /-- a quiet environment step: no faults, no new work -/
 def Quiet (s : State) : Op → Prop
-  | .addBegin x _ => x ∈ keys s.rows
+  | .addBegin x _ _ => x ∈ keys s.rows
   | .finish _ ok => ok = true
   | .crash | .close | .start _ => False
   | .addEnq x => (stepO s (.addEnq x)).2 ≠ .overflow
@@ -134,9 +134,9 @@ theorem idxIn_cons_ne (r : Row) (rest : List Row) (k : Key) (h : r.key ≠ k) :
 theorem quiet_step_effect (s : State) (g : Good s) (hup : s.mode = .up) (o : Op) (hq : Quiet s o) (k : Key) :
     StepEffect s (step s o) k := by
   cases o with
-  | addBegin x d =>
+  | addBegin x d pl =>
     have hh : hasKey s.rows x = true := (hasKey_iff _ _).mpr hq
-    have : step s (.addBegin x d) = s := by simp [step, stepO, hup, hh]
+    have : step s (.addBegin x d pl) = s := by simp [step, stepO, hup, hh]
     rw [this]; exact StepEffect.refl s k
   | addEnq x =>
     simp only [step, stepO]
